@@ -4,6 +4,8 @@ import Khttp.Driver.Hdr
 import Khttp.Driver.Pool
 import Khttp.Driver.Date
 import Khttp.Driver.Route
+import Khttp.Driver.Print
+import Khttp.Driver.Epoll
 open Khttp Khttp.Driver
 
 def answer (line : String) : String :=
@@ -17,6 +19,8 @@ def answer (line : String) : String :=
     | "HDR" => hdrLine arg
     | "DATE" => dateLine arg
     | "ROUTE" => routeLine arg
+    | "PRINT" => printLine arg
+    | "EPOLLTRACE" => epollTraceLine arg
     | "DATECACHE" => dateCacheLine arg
     | "POOLTRACE" => poolTraceLine arg
     | _ => "BAD-DOMAIN"
